@@ -339,6 +339,14 @@ def fixed_cases(g):
                           {"path": ["d%41", "syn_100%ACh.nml"], "kind": "xml", "comps": [C("ion_channel", "ach", 4)], "incs": []},
                           {"path": ["dA", "syn_100%ACh.nml"], "kind": "xml", "comps": [C("ion_channel", "decoy", 5)], "incs": []}],
                 "dirs": [[], ["d%41"], ["dA"]], "cwd": [], "cwds": [["dA"]], "entry": {"file": ["top.nml"], "style": "rel"}, "al": [], "shape": "tree"})
+    # ... the same at depth 2 and from a string, with '#', '+' and a blank as controls (ASCII only: the names go into Coq strings)
+    odd = [{"path": ["lib", "a+b #1.nml"], "kind": "xml", "comps": [C("cells", "plus", 1)], "incs": [H("ch%2Fx%25.nml"), H("sub dir", "x+y.xml")]},
+           {"path": ["lib", "ch%2Fx%25.nml"], "kind": "xml", "comps": [C("ion_channel", "pct2", 2)], "incs": []},
+           {"path": ["lib", "ch%2Fx%.nml"], "kind": "xml", "comps": [C("ion_channel", "decoy", 3)], "incs": []},
+           {"path": ["lib", "sub dir", "x+y.xml"], "kind": "xml", "comps": [C("ion_channel", "blankdir", 4)], "incs": []}]
+    out.append({"files": odd, "dirs": [[], ["lib"], ["lib", "sub dir"], ["w"]], "cwd": ["w"], "cwds": [],
+                "entry": {"string": {"comps": [C("cells", "s", 5)], "incs": [H("lib", "a+b #1.nml")]}, "base": [], "base_style": "rel"},
+                "al": [], "shape": "tree"})
     for c in out:
         c["names"] = names_of(c)
         c["opts"] = [False, True]
